@@ -28,7 +28,8 @@ def parseRef (s : String) : Ref :=
   let cs := s2.toList
   let pre := cs.takeWhile (fun c => c != ':' && c != '/')
   let (scheme, rest) :=
-    if pre.length < cs.length && cs.getD pre.length ' ' == ':' && !pre.isEmpty && pre.all isAlphaC then
+    if pre.length < cs.length && cs.getD pre.length ' ' == ':' && !pre.isEmpty && isAlphaC (pre.headD ' ') &&
+       pre.all (fun c => isAlphaC c || isDigitC c || c == '+' || c == '-' || c == '.') then
       (some (String.ofList pre).toLower, cs.drop (pre.length + 1))
     else (none, cs)
   match rest with
@@ -75,6 +76,14 @@ def normAuth (scheme : String) (auth : String) : Option (String × Option Nat) :
       else if (scheme == "http" && n == 80) || (scheme == "https" && n == 443) then some (host, none)
       else some (host, some n)
 
+/-- WHATWG host parsing turns a host whose last label is a number (decimal, or 0x-hex) into an IPv4
+    address; such authorities are outside the modelled class -/
+def numericLikeHost (auth : String) : Bool :=
+  let host := (splitOnce auth ':').1
+  let last := (host.splitOn ".").getLast?.getD ""
+  let last := if last.isEmpty then ((host.splitOn ".").dropLast.getLast?.getD "") else last
+  !last.isEmpty && (last.toList.all isDigitC || last.toLower.startsWith "0x")
+
 def mergePath (basePath : String) (refPath : String) : String :=
   let b := (if basePath.isEmpty then "/" else basePath).toList
   -- everything up to and including the last '/'
@@ -90,12 +99,14 @@ def resolve (base : Uri) (loc : String) : Res3986 :=
   | some s, some a =>
     if s != "http" && s != "https" then .outOfClass else
     if a.isEmpty && !r.path.isEmpty then .outOfClass else   -- `scheme:///path`: WHATWG repairs, RFC does not define
+    if numericLikeHost a then .outOfClass else
     match normAuth s a with
     | none => .err
     | some (h, p) => mk s h p (removeDotSegments r.path) r.query
   | some _, none => .outOfClass                              -- `http:g` forms
   | none, some a =>
     if a.isEmpty && !r.path.isEmpty then .outOfClass else
+    if numericLikeHost a then .outOfClass else
     match normAuth base.scheme a with
     | none => .err
     | some (h, p) => mk base.scheme h p (removeDotSegments r.path) r.query
@@ -111,6 +122,28 @@ def resolve (base : Uri) (loc : String) : Res3986 :=
 
 inductive FollowRes | flow (f : Flow) | none | fault (e : Fault) | outOfClass
 
+/-- flow.rs as_new_flow: the method of the request that follows a redirect (`none`: do not follow) -/
+def newMethodOf (m : Method) (status : Nat) : Option Method :=
+  if status == 307 || status == 308 then
+    if m.needBody then none else if m == .delete then none else some m
+  else if m == .get || m == .head then some m else some .get
+
+/-- flow.rs `can_redirect_auth_header`, against the ORIGINAL request URI -/
+def keepAuthHeader (sameHost : Bool) (orig target : Uri) : Bool :=
+  sameHost && (orig.host == target.host && (orig.scheme == target.scheme || target.scheme == "https"))
+
+/-- names suppressed among the inherited headers of the new request -/
+def unsetList (keepAuth : Bool) : List String :=
+  (if keepAuth then [] else ["authorization"]) ++ ["cookie", "content-length"]
+
+/-- the flow `as_new_flow` builds: the original request with a new method, rebuilt by `Flow::new`, then the
+    target URI installed as override and the suppression list set -/
+def followFlow (prev : AReq) (nm : Method) (uri : Uri) (sameHost : Bool) : Flow :=
+  { (Flow.new nm prev.version prev.uri prev.orig) with
+    call := { (Flow.new nm prev.version prev.uri prev.orig).call with
+      req := { (Flow.new nm prev.version prev.uri prev.orig).call.req with
+        uriOverride := some uri, unset := unsetList (keepAuthHeader sameHost prev.uri uri) } } }
+
 /-- flow.rs Flow<Redirect>::as_new_flow -/
 def Flow.asNewFlow (f : Flow) (sameHost : Bool) : Flow × FollowRes :=
   match f.location with
@@ -123,22 +156,12 @@ def Flow.asNewFlow (f : Flow) (sameHost : Bool) : Flow × FollowRes :=
       match f.status with
       | none => (f, .fault (.panic "flow.rs status unwrap"))
       | some status =>
-        let prev := f.call.req
-        match resolve prev.effUri (String.ofList (loc.map fun b => Char.ofNat b.toNat)) with
+        match resolve f.call.req.effUri (String.ofList (loc.map fun b => Char.ofNat b.toNat)) with
         | .outOfClass => (f, .outOfClass)
         | .err => (f, .fault (.api .badLocationHeader))
         | .ok uri =>
-          let m := prev.method
-          let newMethod : Option Method :=
-            if status == 307 || status == 308 then
-              if m.needBody then none else if m == .delete then none else some m
-            else if m == .get || m == .head then some m else some .get
-          match newMethod with
+          match newMethodOf f.call.req.method status with
           | none => (f, .none)
           | some nm =>
-            let next := Flow.new nm prev.version prev.uri prev.orig
-            let keepAuth := sameHost && (prev.uri.host == uri.host &&
-              (prev.uri.scheme == uri.scheme || uri.scheme == "https"))
-            let unset := (if keepAuth then [] else ["authorization"]) ++ ["cookie", "content-length"]
-            let next' := { next with call := { next.call with req := { next.call.req with uriOverride := some uri, unset := unset } } }
-            ({ f with call := { f.call with req := { prev with taken := true } } }, .flow next')
+            ({ f with call := { f.call with req := { f.call.req with taken := true } } },
+             .flow (followFlow f.call.req nm uri sameHost))
